@@ -74,6 +74,7 @@ TRANSLATORS = {
     "GenPeriodic": "gen_periodic",
     "GenRestore": "gen_restore",
     "GenRoutes": "gen_routes",
+    "GenSave": "gen_save",
 }
 
 
